@@ -196,6 +196,9 @@ def leeds_lines():
         add(["G" + g], [g], 10)
     add(["C+", "GRAIN-"], ["C", "GRAIN0"], 6)
     add(["H3O+", "GRAIN-"], ["H2O", "H", "GRAIN0"], 6, a="5.00E-01")
+    # the grain written first (the order the native format's sorted writer produces for H+, He+, HCO+ ...)
+    add(["GRAIN-", "H+"], ["H", "GRAIN0"], 6)
+    add(["GRAIN-", "HCO+"], ["H", "CO", "GRAIN0"], 6, a="7.00E-01")
     add(["e-", "GRAIN0"], ["GRAIN-"], 20)
     # surface two-body (13) and reactive desorption (14): every order of light (GH, GH2) and heavy partners; alpha = barrier (K)
     for k, (x, y_, prod) in enumerate([("GH", "GCO", "GHCO"), ("GCO", "GH", "GHCO"), ("GH", "GH", "GH2"), ("GH2", "GO", "GH2O"), ("GO", "GH2", "GH2O"), ("GO", "GCO", "GCO2"), ("GH2", "GH", "GH2O")]):
@@ -212,6 +215,49 @@ CASES = [
     ("leeds-hh93i", "leeds", "hh93i", leeds_lines, {}),
     ("leeds-hh93-user", "leeds", "hh93", leeds_lines, {"binding": {"GCO": 855.0}, "yields": {"GCO": 0.0027, "GH2O": 0.5}}),
 ]
+def table_species(n=36):
+    """deterministic sample of RATE12 binding-energy species made of the elements of MASS (thorough tier)"""
+    ok = []
+    for name in sorted(EB):
+        rest = re.sub(r"([A-Z][a-z]?)(\d*)", lambda m: "" if m.group(1) in MASS else "?", name)
+        if rest == "" and name not in ("CO", "H2O", "CH4", "C", "H", "H2"):
+            ok.append(name)
+    step = max(1, len(ok) // n)
+    return ok[::step][:n]
+
+
+def ucl_many_lines():
+    L = []
+    add = lambda r, code, p, a="1.0", c="0.0": L.append({"reactants": [r], "products": p, "a": a, "b": "0.0", "c": c, "tmin": "0.0", "tmax": "10000.0", "code": code, "idx": len(L) + 1})
+    for g in table_species():
+        add(g, "FREEZE", ["#" + g], a="0.7")
+        for code in ("DESOH2", "DESCR", "DEUVCR", "THERM"):
+            add("#" + g, code, [g], c="1300.0")
+    L.append({"reactants": ["H", "H"], "products": ["H2"], "a": "1.0e-17", "b": "0.0", "c": "0.0", "tmin": "0", "tmax": "0", "code": "", "idx": len(L) + 1})
+    return L
+
+
+def leeds_many_lines():
+    L = []
+    add = lambda rs, ps, code, a="1.00E+00": L.append({"reactants": rs, "products": ps, "a": a, "b": "0.00", "c": "0.0", "tmin": "0", "tmax": "0", "code": code, "idx": len(L) + 1})
+    for g in table_species():
+        add([g], ["G" + g], 7, a="8.00E-01")
+        for code in (8, 9, 10):
+            add(["G" + g], [g], code)
+    return L
+
+
+THOROUGH_CASES = [
+    ("ucl-rr07x-table", "uclchem", "rr07x", ucl_many_lines, {}),
+    ("leeds-hh93-table", "leeds", "hh93", leeds_many_lines, {}),
+    ("leeds-hh93i-table-user", "leeds", "hh93i", leeds_many_lines, {"binding": {"GHCN": 2345.0, "GNH3": 4321.0}, "yields": {"GHCN": 0.02}}),
+]
+
+
+def all_cases(tier):
+    return CASES + (THOROUGH_CASES if tier == "thorough" else [])
+
+
 REFUSE = [
     ("ucl-rr07-THERM", "uclchem", "rr07", lambda: ucl_lines() + ucl_therm_lines()),
     ("leeds-rr07-type8", "leeds", "rr07", lambda: [l for l in leeds_lines() if l["code"] in (7, 8)]),
@@ -425,7 +471,7 @@ def _work_inner(a):
     if a[0] == "refuse":
         n, f, m, mk = REFUSE[a[1]]
         return refuse(n, f, m, mk)
-    n, f, m, mk, u = CASES[a[1]]
+    n, f, m, mk, u = all_cases(a[2])[a[1]]
     return analyse(n, f, m, mk, u, a[2])
 
 
@@ -441,7 +487,7 @@ def _work(a):
 def main(pid, tier):
     chk = Check("C11", tier)
     proj.ensure_venv()
-    work = [("case", i, tier) for i in range(len(CASES))] + [("refuse", i, tier) for i in range(len(REFUSE))]
+    work = [("case", i, tier) for i in range(len(all_cases(tier)))] + [("refuse", i, tier) for i in range(len(REFUSE))]
     ctx = mp.get_context("fork")
     with cf.ProcessPoolExecutor(max_workers=10, mp_context=ctx) as ex:
         results = list(ex.map(_work, work))
@@ -463,7 +509,7 @@ def main(pid, tier):
         chk.notes += [f"{r['case']}: {n}" for n in r["notes"]]
         for s_ in r["samples"]:
             chk.sample(s_)
-    chk.bounds = {"cases": [c[0] for c in CASES], "refusals": [c[0] for c in REFUSE], "processes": {"rr07/rr07x (UCLCHEM format)": ["FREEZE neutral/ion/electron", "DESOH2", "DESCR", "DEUVCR", "THERM (rr07x)"], "hh93/hh93i (Leeds format)": ["6 recombination", "7 accretion", "8 thermal", "9 cosmic-ray", "10 photo", "20 electron capture", "13 surface two-body and 14 reactive desorption for 7 reactant orders of light/heavy partners"]},
+    chk.bounds = {"cases": [c[0] for c in all_cases(tier)], "table_species_in_thorough": table_species(), "refusals": [c[0] for c in REFUSE], "processes": {"rr07/rr07x (UCLCHEM format)": ["FREEZE neutral/ion/electron", "DESOH2", "DESCR", "DEUVCR", "THERM (rr07x)"], "hh93/hh93i (Leeds format)": ["6 recombination", "7 accretion", "8 thermal", "9 cosmic-ray", "10 photo", "20 electron capture", "13 surface two-body and 14 reactive desorption for 7 reactant orders of light/heavy partners"]},
                   "species": ["CO", "H2O", "CH4", "C", "H", "C+", "H3O+", "e-"], "species_data": "RATE12 table and user overrides of binding energy / yield"}
     chk.assumptions = ["libm uninterpreted; GetMantleDens opaque (non-negative); Tgas, nH, rG > 0", "physical constants are read as the project defines them (their values are not part of the property)",
                        "multi-group grains are outside the encoded set", "mass numbers and RATE12 binding energies are read independently of naunet"]
